@@ -58,6 +58,7 @@ open finding of KNOWN_FINDINGS.txt:
   `Gd` ↔ ¬ class `template_binder_spelling_also_free_in_same_template`      (K13d)
   `Gf` ↔ ¬ class `pattern_variable_under_extra_ellipsis_depth`              (K13f)
   `Gg` ↔ ¬ class `macro_defining_macro`                                     (K13g)
+  `Gj` ↔ ¬ class `template_list_with_two_ellipses`                          (K13j, proposed)
 -/
 
 def Flags.Ga (x : Flags) : Prop := x.a = false
@@ -66,11 +67,12 @@ def Flags.Gc (x : Flags) : Prop := x.c = false
 def Flags.Gd (x : Flags) : Prop := x.d = false
 def Flags.Gf (x : Flags) : Prop := x.f = false
 def Flags.Gg (x : Flags) : Prop := x.g = false
+def Flags.Gj (x : Flags) : Prop := x.j = false
 
 /-- The guard as the explicit conjunction. -/
-def Flags.inG (x : Flags) : Prop := x.Ga ∧ x.Gb ∧ x.Gc ∧ x.Gd ∧ x.Gf ∧ x.Gg
+def Flags.inG (x : Flags) : Prop := x.Ga ∧ x.Gb ∧ x.Gc ∧ x.Gd ∧ x.Gf ∧ x.Gg ∧ x.Gj
 
 instance (x : Flags) : Decidable x.inG := by
-  unfold Flags.inG Flags.Ga Flags.Gb Flags.Gc Flags.Gd Flags.Gf Flags.Gg; infer_instance
+  unfold Flags.inG Flags.Ga Flags.Gb Flags.Gc Flags.Gd Flags.Gf Flags.Gg Flags.Gj; infer_instance
 
 end SteelVerif.C13
